@@ -7,6 +7,7 @@
 -/
 import QlibcModel.Tree.History
 import QlibcModel.Generated.TreeConfig
+import QlibcModel.Shapes.Tree
 
 namespace Qlibc.Props.C02
 open Qlibc Qlibc.Tree Qlibc.Tree.T
